@@ -145,7 +145,7 @@ def collect(ctx, n_ir, n3):
 
 def run(ctx):
     status = coqbuild.prove("C03", THEOREMS)
-    agg, items, corr, work = collect(ctx, 12 if ctx.quick else 120, 40 if ctx.quick else 125)
+    agg, items, corr, work = collect(ctx, 12 if ctx.quick else 300, 40 if ctx.quick else 125)
     for cls, det, ir in items:
         ctx.item(cls, {"stage": "implementation chains (emit -> text -> parse at each hop)", "clause": cls, "input": T.jsonable(ir) if ir else None,
                        "detail": det})
